@@ -41,19 +41,19 @@ theorem np_done : NP done := by simp [done]
 theorem np_runInt (op : Op) (a b : Option Int) (u : Option Units) (v : V) : NP (runInt op a b u v) := by
   unfold runInt
   cases op <;> simp only <;>
-    exact np_bind (by first | exact np_intInputMapper _ _ | exact np_asInt _)
+    exact np_bind (by first | exact np_rewrapC (np_intInputMapper _ _) | exact np_asInt _)
       (fun _ => np_bind (np_checkInt _ _ _) (fun _ => by first | exact np_done | simp))
 
 theorem np_runFloat (x : Ext) (op : Op) (a b : Option Nat) (u : Option Units) (v : V) : NP (runFloat x op a b u v) := by
   unfold runFloat
   cases op <;> simp only <;>
-    exact np_bind (by first | exact np_floatInputMapper _ _ _ | exact np_asFloat _)
+    exact np_bind (by first | exact np_rewrapC (np_floatInputMapper _ _ _) | exact np_asFloat _)
       (fun _ => np_bind (np_checkFloat _ _ _) (fun _ => by first | exact np_done | simp))
 
 theorem np_runStr (x : Ext) (op : Op) (a b : Option Int) (p : Option String) (v : V) : NP (runStr x op a b p v) := by
   unfold runStr
   cases op <;> simp only
-  · exact np_bind (np_stringInputMapper _ _) (fun _ => np_bind (np_checkStr _ _ _ _ _) (fun _ => by simp))
+  · exact np_bind (np_rewrapC (np_stringInputMapper _ _)) (fun _ => np_bind (np_checkStr _ _ _ _ _) (fun _ => by simp))
   · exact np_bind (np_asString _) (fun _ => np_bind (np_checkStr _ _ _ _ _) (fun _ => np_done))
   · exact np_bind (np_asString _) (fun _ => np_bind (np_checkStr _ _ _ _ _) (fun _ => by simp))
   · split
@@ -69,7 +69,7 @@ theorem np_runBool (op : Op) (v : V) : NP (runBool op v) := by
 theorem np_runPattern (x : Ext) (op : Op) (v : V) : NP (runPattern x op v) := by
   unfold runPattern
   cases op <;> simp only
-  · exact np_bind (np_stringInputMapper _ _) (fun _ => by split <;> simp)
+  · exact np_bind (np_rewrapC (np_stringInputMapper _ _)) (fun _ => by split <;> simp)
   all_goals (split <;> simp [np_done])
 
 theorem np_runEnumInt (op : Op) (vals : List Int) (u : Option Units) (v : V) : NP (runEnumInt op vals u v) := by
